@@ -354,6 +354,7 @@ class Engine(ValueOps, ExprOps, CallOps, StmtOps):
                 else:
                     val = self.spec_eval(expr)
                 st.ghost[gname] = SV('arr', mk_store(g.term, raw.term, self.box(val)), g.ty, extra=g.extra)
+            break       # first matching annotation wins
         for guard in self.hook_guards:
             if re.search(guard, template) and not matched:
                 raise Unsupported('format template matching %r has no hole annotation in the contract of %s'
